@@ -83,6 +83,9 @@ pub struct Reporter {
   samples: Mutex<Vec<Value>>,
   max_reported: u64,
   replaying: bool,
+  /// Some(key): this run is an additional level of a check whose first level already wrote the
+  /// evidence file; `finish` folds this run's coverage into it under `coverage[key]`.
+  merge_key: Option<String>,
 }
 
 impl Reporter {
@@ -108,7 +111,12 @@ impl Reporter {
       samples: Mutex::new(Vec::new()),
       max_reported: 5,
       replaying: false,
+      merge_key: None,
     }
+  }
+
+  pub fn set_merge(&mut self, key: &str) {
+    self.merge_key = Some(key.to_string());
   }
 
   pub fn set_replaying(&mut self, r: bool) {
@@ -238,7 +246,7 @@ impl Reporter {
     }
     coverage.insert("known_finding_cases".to_string(), Value::Object(kf));
     let viol = self.violations();
-    let ev = json!({
+    let mut ev = json!({
       "property_id": self.prop,
       "tier": self.tier.name(),
       "seed": self.seed,
@@ -248,6 +256,26 @@ impl Reporter {
       "wall_s": self.elapsed_s(),
       "violations": viol,
     });
+    if let (Some(key), false) = (self.merge_key.as_ref(), self.replaying) {
+      let path = verif_dir().join("evidence").join(format!("{}.json", self.prop));
+      let first: Value = std::fs::read(&path)
+        .ok()
+        .and_then(|b| serde_json::from_slice(&b).ok())
+        .unwrap_or_else(|| machinery_failure(&format!("{}: evidence of the first level missing at {}", self.prop, path.display())));
+      if first["tier"] != ev["tier"] || first["coverage"].get(key).is_some() {
+        machinery_failure(&format!("{}: evidence file does not hold the first level of this {} run", self.prop, self.tier.name()));
+      }
+      let mut merged = first;
+      merged["coverage"][key.as_str()] = ev["coverage"].take();
+      let evals = merged["coverage"]["evaluations"].as_u64().unwrap_or(0) + merged["coverage"][key.as_str()]["evaluations"].as_u64().unwrap_or(0);
+      merged["coverage"]["evaluations"] = json!(evals);
+      let mut a: Vec<Value> = merged["assumptions"].as_array().cloned().unwrap_or_default();
+      a.extend(ev["assumptions"].as_array().cloned().unwrap_or_default());
+      merged["assumptions"] = Value::Array(a);
+      merged["wall_s"] = json!(merged["wall_s"].as_f64().unwrap_or(0.0) + self.elapsed_s());
+      merged["violations"] = json!(merged["violations"].as_u64().unwrap_or(0) + viol);
+      ev = merged;
+    }
     if !self.replaying {
       let dir = verif_dir().join("evidence");
       let _ = std::fs::create_dir_all(&dir);
